@@ -35,6 +35,15 @@ def configurations(rng, tier):
             yield "behaviour", Cfg(behaviour=beh, path=path, service="wp", retries=1)
         yield "behaviour", Cfg(behaviour="ack", think=1.0, path=path)
         yield "behaviour", Cfg(behaviour="ack", think=4.0, path=path, retries=1)      # slower than the request timeout
+    # 1b. several requests to the same peer submitted at the same instant (IOCB queue per address / concurrent direct requests)
+    behs = ["ack", "error", "reject", "abort", "silent"]
+    for path in ("iocb", "direct"):
+        for first in behs:
+            for second in (behs if thorough else ["ack", rng.choice(behs[1:])]):
+                extra = [(second, "cpt", rng.choice([5, 300]), rng.choice([5, 300]))]
+                if rng.random() < 0.4:
+                    extra.append((rng.choice(behs), "cpt", 5, 5))
+                yield "queued-requests", Cfg(behaviour=first, path=path, retries=rng.choice([0, 1]), c_max=206, s_max=206, extra=extra)
     # 2. segmentation boundaries for each max-APDU size
     for L in ([50, 128, 206, 480, 1024, 1476] if thorough else [50, 206, 480]):
         req_sizes = boundary_sizes(L)
